@@ -469,6 +469,52 @@ def check_genpoints(run, plugin_outputs):
             rp = {"replay": replay_key(sp), "call": c, "model": r, "tt": pl["gp_tt"],
                   "correspondence": "_gen_func_ref vs funcRefCandidates / sigtypeCompatible"}
             report(dict(rp, kind="broken-correspondence"), "gen_func_ref:model-differs", True)
+    check_gennew(run, plugin_outputs, report)
+
+
+def check_gennew(run, plugin_outputs, report):
+    """2. `_get_subclass` (the class drawn is one of the model's candidates) and `gen_new` (given the class and the
+    random instantiations, the kind of node returned, its type and the expected types handed to `generate_expr`
+    for the constructor arguments are the model's plan)"""
+    for sp, pl, c, r in _gp_batches(plugin_outputs, "subclass", "check.subclass"):
+        e = pl["gp_tt"][c["etype"]]
+        run.tally("get_subclass_calls", "%s:%s:%s:%s" % (
+            "none" if c["out"] is None else ("own-class" if c["out"] == c["ename"] else "other-class"),
+            e["k"], "subtype" if c["sub"] else "exact", "refines" if r["ok"] else "DIFFERS"))
+        run.cov["traces_validated_against_impl"] += 1
+        if not r["ok"]:
+            rp = {"replay": replay_key(sp), "call": c, "model": r, "tt": pl["gp_tt"],
+                  "correspondence": "_get_subclass vs subclassCandidates"}
+            judged = None
+            if c["out"] is not None:
+                cl = [x for x in c["classes"] if x["name"] == c["out"]]
+                if cl and not cl[0]["parameterized"]:
+                    judged = _subd(sp, pl["gp_tt"], cl[0]["t"], c["etype"])
+            if judged is False:
+                report(dict(rp, kind="failing-input", what="_get_subclass returned a class whose type is not "
+                            "assignable to the expected type (specification-side decider)"),
+                       "get_subclass:class-not-assignable", False)
+            else:
+                report(dict(rp, kind="broken-correspondence", judged_assignable=judged),
+                       "get_subclass:model-differs", True)
+    for sp, pl, c, r in _gp_batches(plugin_outputs, "new", "check.gennew"):
+        kind = c["out"]["kind"]
+        if not c["reached_subclass"] and r["plan"] != "funcRefOrLambda":
+            # the SAM-coercion branch (random) returned before `_get_subclass`: not a branch of the plan
+            run.tally("gen_new_calls", "sam-coercion:%s:%s" % (kind, "flag-set" if c["sam"] else "FLAG-NOT-SET"))
+            if not c["sam"]:
+                report({"kind": "broken-correspondence", "replay": replay_key(sp), "call": c, "model": r,
+                        "tt": pl["gp_tt"], "correspondence": "gen_new vs genNewPlan (branch before _get_subclass)"},
+                       "gen_new:model-differs", True)
+            continue
+        generic = bool(c["cls"] and c["cls"]["tparams"])
+        run.tally("gen_new_calls", "%s:%s%s%s:%s" % (r["plan"], kind, ":generic-class" if generic else "",
+                                                      ":%d-random-instantiations" % len(c["insts"]) if c["insts"] else "",
+                                                      "agree" if r["ok"] else "DIFFER"))
+        run.cov["traces_validated_against_impl"] += 1
+        if not r["ok"]:
+            report({"kind": "broken-correspondence", "replay": replay_key(sp), "call": c, "model": r,
+                    "tt": pl["gp_tt"], "correspondence": "gen_new vs genNewPlan"}, "gen_new:model-differs", True)
 
 
 def check_folds(run, plugin_outputs):
@@ -581,8 +627,33 @@ def fold_witness(run):
                        "replay": {"witness": "fold", "lang": "kotlin"}}, signature="condType:witness-other")
 
 
+def audit_extra(run, prop):
+    """axiom audit of a second theorem file of this property (Props/C01Gen.lean lives in the world of C07's
+    specification, which cannot be imported together with C06's): same rule as common.Run.build_and_audit"""
+    names, res, missing, out = common.audit(prop)
+    good = 0
+    for n in names:
+        ax = res.get(n.split(".")[-1])
+        if ax is None:
+            run.broken.append({"obligation": "audit %s.%s" % (prop, n), "detail": "no #print axioms output"})
+        elif set(ax) - common.ALLOWED_AXIOMS:
+            run.broken.append({"obligation": "audit %s.%s" % (prop, n), "detail": "axioms " + ",".join(ax)})
+        else:
+            good += 1
+    if not names:
+        run.broken.append({"obligation": "audit " + prop, "detail": "no theorem found"})
+    run.cov["obligations"] += len(names)
+    run.cov["discharged"] += good
+    run.cov.setdefault("theorems", {}).update({"%s.%s" % (prop, n): res.get(n.split(".")[-1]) for n in names})
+    run.cov["checker_cmd"] += " && lake build Heph.Props.%s && lake env lean Audit/%s.lean" % (prop, prop)
+    run.log("%s: theorems %d/%d audited" % (prop, good, len(names)))
+    return good == len(names) and bool(names)
+
+
 def check(run):
-    proofs_ok = run.build_and_audit()
+    proofs_ok = run.build_and_audit(extra_targets=["Heph.Props.C01Gen"])
+    if run.cov.get("lake_build_ok"):
+        proofs_ok = audit_extra(run, "C01Gen") and proofs_ok
     quick = run.tier == "quick"
     base = run.rng.randrange(0, 10 ** 6) if run.seed else 0
     specs = []
